@@ -293,3 +293,324 @@ class MaskedCells:
                 if xt(first, self.node) == self.mask:
                     return True
         return False
+
+
+# ====================================================================== C07.CHILDMASK
+class ChildMasks:
+    """Which mask each data child of a masked copy is copied with.
+
+    A may-analysis of origins: every local maps to the set of ORIGINS its value can have (a parameter on entry, the
+    statement that computed it, None).  Phase 1 is the ordinary fixpoint over the whole function (all children mixed); it
+    gives the state at the head of the children loop, i.e. everything an iteration can inherit from the code before the
+    loop AND from earlier iterations.  Phase 2 follows ONE iteration from that state for a child of a stated association
+    (the tests on the child's association, `isinstance(child, Data)`, `<cell mask> is None` are decided, contradicted
+    edges are not followed) and reads the origins of the `mask=` argument at `<child>.copy(...)`.
+    Nothing depends on names of locals, nesting vs guard clauses, helpers (normalised view), dict dispatch on the association.
+    """
+
+    def __init__(self, fn, data_bases, mask="mask", cell_mask="cell_mask"):
+        from ..normalize import single_assignments
+
+        self.fn, self.node, self.mask, self.cell_mask = fn, fn.node, mask, cell_mask
+        self.data_bases = data_bases  # class names a Data child is an instance of
+        self.g = CFG(self.node)
+        self.single = single_assignments(self.node)
+        a = self.node.args
+        self.params = [x.arg for x in a.posonlyargs + a.args + a.kwonlyargs]
+
+    # ------------------------------------------------------------------ origins
+    @staticmethod
+    def get(env, name):
+        return frozenset(v for n, v in env if n == name)
+
+    @staticmethod
+    def put(env, name, values):
+        return frozenset(x for x in env if x[0] != name) | {(name, v) for v in values}
+
+    def origins(self, e, env, scen):
+        if isinstance(e, ast.Name):
+            got = self.get(env, e.id)
+            return got if got else frozenset({f"free:{e.id}"})
+        if isinstance(e, ast.Constant) and e.value is None:
+            return frozenset({"None"})
+        if isinstance(e, ast.IfExp):
+            v = self.truth(e.test, env, scen)
+            if v is True:
+                return self.origins(e.body, env, scen)
+            if v is False:
+                return self.origins(e.orelse, env, scen)
+            return self.origins(e.body, env, scen) | self.origins(e.orelse, env, scen)
+        if isinstance(e, ast.BoolOp) and isinstance(e.op, ast.Or) and len(e.values) == 2:
+            return self.origins(e.values[0], env, scen) | self.origins(e.values[1], env, scen)
+        # a table keyed by the child's association: {CELL: cell_mask, VERTEX: mask}.get(child.association[, default]) / [...]
+        table = key = default = None
+        if isinstance(e, ast.Subscript):
+            table, key = e.value, e.slice
+        elif isinstance(e, ast.Call) and isinstance(e.func, ast.Attribute) and e.func.attr == "get" and 1 <= len(e.args) <= 2 and not e.keywords:
+            table, key, default = e.func.value, e.args[0], (e.args[1] if len(e.args) == 2 else ast.Constant(value=None))
+        if table is not None and isinstance(table, ast.Name) and table.id in self.single:
+            table = self.single[table.id]
+        if isinstance(table, ast.Dict) and scen and self._assoc_of_child(key, scen) and all(k is not None for k in table.keys):
+            member = {self._member(k): v for k, v in zip(table.keys, table.values)}
+            if None not in member:
+                if scen["assoc"] in member:
+                    return self.origins(member[scen["assoc"]], env, scen)
+                if scen["assoc"] == "OTHER" and default is not None:
+                    return self.origins(default, env, scen)
+        return frozenset({f"at:{getattr(e, 'lineno', 0)}:{getattr(e, 'col_offset', 0)}:{type(e).__name__}"})
+
+    # ------------------------------------------------------------------ conditions of one iteration
+    @staticmethod
+    def _member(e):
+        """'VERTEX' for <...>.VERTEX / the string 'VERTEX'."""
+        if isinstance(e, ast.Attribute) and e.attr.isupper():
+            return e.attr
+        if isinstance(e, ast.Constant) and isinstance(e.value, str) and e.value.isupper():
+            return e.value
+        return None
+
+    def _x(self, e):
+        from ..normalize import expanded
+
+        return expanded(e, self.node, self.single)
+
+    def _assoc_of_child(self, e, scen):
+        t = unparse(self._x(e))
+        return t in (f"{scen['child']}.association", f"{scen['child']}.association.name")
+
+    def atom(self, e, env, scen):
+        if not scen:
+            return None
+        child = scen["child"]
+        if isinstance(e, ast.Compare) and len(e.ops) == 1:
+            op, a, b = e.ops[0], e.left, e.comparators[0]
+            if isinstance(op, (ast.Is, ast.IsNot, ast.Eq, ast.NotEq)):
+                pos = isinstance(op, (ast.Is, ast.Eq))
+                for x, y in ((a, b), (b, a)):
+                    if self._assoc_of_child(x, scen) and self._member(self._x(y)):
+                        m = self._member(self._x(y))
+                        if scen["assoc"] == "OTHER":
+                            same = False if m in ("VERTEX", "CELL") else None
+                        else:
+                            same = m == scen["assoc"]
+                        return None if same is None else (same if pos else not same)
+                    if isinstance(y, ast.Constant) and y.value is None and isinstance(x, ast.Name):
+                        org = self.get(env, x.id)
+                        known = scen["not_none"]
+                        if org and org <= known:
+                            return not pos
+                        if org == frozenset({"None"}):
+                            return pos
+            if isinstance(op, (ast.In, ast.NotIn)) and self._assoc_of_child(a, scen) and isinstance(self._x(b), (ast.Tuple, ast.List, ast.Set)):
+                ms = [self._member(x) for x in self._x(b).elts]
+                if all(ms) and (scen["assoc"] != "OTHER" or set(ms) <= {"VERTEX", "CELL"}):
+                    inn = scen["assoc"] in ms
+                    return inn if isinstance(op, ast.In) else not inn
+            return None
+        if isinstance(e, ast.Call) and fname(e) == "isinstance" and len(e.args) == 2 and unparse(self._x(e.args[0])) == child:
+            names = [unparse(x).split(".")[-1] for x in (e.args[1].elts if isinstance(e.args[1], ast.Tuple) else [e.args[1]])]
+            if any(n in self.data_bases for n in names):
+                return True
+            if all(n in scen["not_data"] for n in names):
+                return False
+        return None
+
+    def truth(self, test, env, scen):
+        return tv3(test, lambda a: self.atom(a, env, scen))
+
+    # ------------------------------------------------------------------ transfer
+    def transfer(self, n, env, scen, head=None):
+        if head is not None and n is head:
+            return {None: BOTTOM}  # phase 2: one iteration only
+        if n.kind == "test":
+            v = self.truth(n.ast, env, scen)
+            return {"true": BOTTOM if v is False else env, "false": BOTTOM if v is True else env, None: env}
+        if n.kind == "fornext":
+            for x in ast.walk(n.ast):
+                if isinstance(x, ast.Name):
+                    env = self.put(env, x.id, {f"iter:{n.lineno}:{x.id}"})
+            return env
+        s = n.ast
+        if n.kind != "stmt" or s is None:
+            return env
+        pre = env
+        if isinstance(s, (ast.Assign, ast.AnnAssign)) and s.value is not None:
+            for t in (s.targets if isinstance(s, ast.Assign) else [s.target]):
+                if isinstance(t, ast.Name):
+                    env = self.put(env, t.id, self.origins(s.value, pre, scen))
+                elif isinstance(t, (ast.Tuple, ast.List)):
+                    for i, el in enumerate(t.elts):
+                        if isinstance(el, ast.Name):
+                            src = s.value.elts[i] if isinstance(s.value, (ast.Tuple, ast.List)) and len(s.value.elts) == len(t.elts) else None
+                            env = self.put(env, el.id, self.origins(src, pre, scen) if src is not None else {f"at:{s.lineno}:{i}:unpack"})
+        elif isinstance(s, ast.AugAssign) and isinstance(s.target, ast.Name):
+            env = self.put(env, s.target.id, {f"at:{s.lineno}:0:aug"})
+        for x in ast.walk(s):
+            if isinstance(x, ast.NamedExpr) and isinstance(x.target, ast.Name):
+                env = self.put(env, x.target.id, self.origins(x.value, pre, scen))
+        return env
+
+    def _solve(self, starts, scen, head=None):
+        from collections import deque
+
+        IN = dict(starts)
+        work = deque(starts)
+        while work:
+            n = work.popleft()
+            out = self.transfer(n, IN[n], scen, head)
+            for m, lab in n.succ:
+                s = out.get(lab, out.get(None)) if isinstance(out, dict) else out
+                if s is BOTTOM:
+                    continue
+                if m not in IN:
+                    IN[m] = s
+                    work.append(m)
+                elif not s <= IN[m]:
+                    IN[m] = IN[m] | s
+                    work.append(m)
+        return IN
+
+    # ------------------------------------------------------------------ the question
+    def sites(self):
+        """[(loop, child name, call node, CFG node, mask argument)] : `<child>.copy(..., mask=M)` inside `for <child> in <...>.children`."""
+        out = []
+        for lp in ast.walk(self.node):
+            if not (isinstance(lp, ast.For) and isinstance(lp.target, ast.Name) and unparse(self._x(lp.iter)).endswith(".children")):
+                continue
+            child = lp.target.id
+            for n in self.g.nodes:
+                if n.ast is None or isinstance(n.ast, list) or n.kind == "with":
+                    continue
+                inside = any(x is n.stmt or x is n.ast for b in lp.body for x in ast.walk(b))
+                if not inside:
+                    continue
+                for c in ast.walk(n.ast):
+                    if isinstance(c, ast.Call) and isinstance(c.func, ast.Attribute) and c.func.attr == "copy" and unparse(self._x(c.func.value)) == child:
+                        m = next((k.value for k in c.keywords if k.arg == "mask"), None)
+                        if m is not None:
+                            out.append((lp, child, c, n, m))
+        return out
+
+    def run(self):
+        """[(call, line, scenario, origins of the mask argument, allowed origins)] for every site and association."""
+        entry = frozenset((p, f"param:{p}") for p in self.params)
+        IN1 = self._solve({self.g.entry: entry}, None)
+        res = []
+        for lp, child, call, cn, marg in self.sites():
+            head = next((n for n in self.g.nodes if n.kind == "fornext" and n.stmt is lp), None)
+            if head is None or head not in IN1:
+                continue
+            H = self.transfer(head, IN1[head], None)  # state at the start of an iteration
+            starts = {m: H for m, lab in head.succ if lab == "loop"}
+            vertex, cells = self.get(H, self.mask), self.get(H, self.cell_mask)
+            for assoc in ("VERTEX", "CELL", "OTHER"):
+                scen = {"child": child, "assoc": assoc, "not_data": {"PropertyGroup"},
+                        # a masked copy: the vertex mask is given; for a cell child also the cell mask exists
+                        "not_none": (vertex | cells) - {"None"}}
+                IN2 = self._solve(starts, scen, head)
+                if cn not in IN2:
+                    continue  # such a child is not copied here
+                got = self.origins(marg, IN2[cn], scen)
+                allowed = {"VERTEX": vertex, "CELL": cells - {"None"}, "OTHER": frozenset({"None"})}[assoc]
+                res.append((call, cn.lineno, assoc, got, allowed))
+        return res
+
+
+# ====================================================================== C07.CACHEGUARD
+class ShrinkGuard:
+    """Does a geometry setter (`<geom>` in vertices / cells) refuse an array with FEWER rows than the stored one — also when the
+    private cache `self._<geom>` has not been loaded yet (object just opened)?
+
+    One forward pass per scenario over the setter; the only fact is 'loaded' (the cache holds the stored array: scenario, or a
+    read of the loading accessor self.<geom> / self.n_<geom>, or an assignment of a fetched array to the cache, earlier on
+    EVERY path).  The tests on `self._<geom> is None`, on the stored geometry being None and the row comparisons new-vs-stored
+    are decided, contradicted edges are not followed; asked: can the statement that stores the NEW array into the cache be
+    reached?"""
+
+    def __init__(self, fn, geom):
+        from ..normalize import single_assignments
+
+        self.fn, self.node, self.geom = fn, fn.node, geom
+        self.new = fn.params[1]
+        self.single = single_assignments(self.node)
+        self.g = CFG(self.node)
+
+    def _x(self, e):
+        from ..normalize import expanded
+
+        return expanded(e, self.node, self.single)
+
+    def cache(self, e):
+        return unparse(e) == f"self._{self.geom}"
+
+    def accessor(self, e):
+        return unparse(e) in (f"self.{self.geom}", f"self.n_{self.geom}")
+
+    def rows(self, e):
+        """'new' / 'stored' / 'cache' when e is the row count of the new array / of the stored geometry."""
+        e = self._x(e)
+        if unparse(e) == f"self.n_{self.geom}":
+            return "stored"
+        base = None
+        if isinstance(e, ast.Subscript) and isinstance(e.value, ast.Attribute) and e.value.attr == "shape" and unparse(e.slice) == "0":
+            base = e.value.value
+        elif isinstance(e, ast.Call) and fname(e) == "len" and len(e.args) == 1:
+            base = e.args[0]
+        if base is None:
+            return None
+        if any(isinstance(x, ast.Name) and x.id == self.new for x in ast.walk(base)):
+            return "new"
+        if self.cache(base):
+            return "cache"
+        if self.accessor(base):
+            return "stored"
+        return None
+
+    def atom(self, e, loaded):
+        e = self._x(e)
+        if isinstance(e, ast.Compare) and len(e.ops) == 1:
+            op, a, b = e.ops[0], e.left, e.comparators[0]
+            if isinstance(op, (ast.Is, ast.IsNot, ast.Eq, ast.NotEq)):
+                pos = isinstance(op, (ast.Is, ast.Eq))
+                for x, y in ((a, b), (b, a)):
+                    if isinstance(y, ast.Constant) and y.value is None:
+                        if self.cache(x):
+                            return (not loaded) if pos else loaded
+                        if self.accessor(x):
+                            return not pos  # the object has a stored geometry
+            ra, rb = self.rows(a), self.rows(b)
+            if ra and rb and {ra, rb} in ({"new", "stored"}, {"new", "cache"}) and ("cache" not in (ra, rb) or loaded):
+                lt = {ast.Lt: True, ast.LtE: True, ast.Gt: False, ast.GtE: False, ast.Eq: False, ast.NotEq: True}.get(type(op))
+                if lt is None:
+                    return None
+                return lt if ra == "new" else {ast.Lt: False, ast.LtE: False, ast.Gt: True, ast.GtE: True, ast.Eq: False, ast.NotEq: True}[type(op)]
+        if unparse(e) == "self.on_file":
+            return True
+        return None
+
+    def loads(self, node_ast):
+        """the statement / test reads the loading accessor, or assigns something fetched to the cache"""
+        if node_ast is None or isinstance(node_ast, list):
+            return False
+        for x in ast.walk(node_ast):
+            if isinstance(x, ast.Attribute) and isinstance(x.ctx, ast.Load) and self.accessor(x):
+                return True
+        if isinstance(node_ast, ast.Assign) and any(self.cache(t) for t in node_ast.targets):
+            v = node_ast.value
+            return not (isinstance(v, ast.Constant) and v.value is None) and not any(isinstance(x, ast.Name) and x.id == self.new for x in ast.walk(self._x(v)))
+        return False
+
+    def stores_new(self):
+        return [n for n in self.g.nodes if n.kind == "stmt" and isinstance(n.ast, ast.Assign) and any(self.cache(t) for t in n.ast.targets)
+                and any(isinstance(x, ast.Name) and x.id == self.new for x in ast.walk(self._x(n.ast.value)))]
+
+    def store_reached(self, loaded: bool) -> bool:
+        def transfer(n, st):
+            if n.kind == "test":
+                v = tv3(n.ast, lambda a: self.atom(a, "loaded" in st))
+                after = st | {"loaded"} if self.loads(n.ast) else st
+                return {"true": BOTTOM if v is False else after, "false": BOTTOM if v is True else after, None: after}
+            return st | {"loaded"} if self.loads(n.ast) else st
+
+        IN = forward(self.g, frozenset({"loaded"}) if loaded else frozenset(), transfer, lambda a, b: a & b, bottom=BOTTOM)
+        return any(n in IN for n in self.stores_new())
